@@ -145,8 +145,15 @@ func (f *Func) redefineInputs(opts ...Arg) (reflect.Type, error) {
 	for _, v := range g.Vertices() {
 		switch v := v.(type) {
 		case *funcVertex:
-			// Copy the func since we're going to modify a field in it.
+			// Copy the func since we're going to modify a field in it. The
+			// cached result of a run-once function is guarded by its lock.
+			if v.Func.onceMu != nil {
+				v.Func.onceMu.Lock()
+			}
 			fCopy := *v.Func
+			if v.Func.onceMu != nil {
+				v.Func.onceMu.Unlock()
+			}
 			v.Func = &fCopy
 
 			// Modify the function to be a zero producing function.
